@@ -18,7 +18,9 @@ _reg(SchedProp('C02', ['Ea.C02.only_running_queued_once', 'Ea.C02.not_running_no
                        'Ea.C02.bad_argument_inert', 'Ea.C02.failed_creation_not_queued',
                        'Ea.step_quiet_notQueued', 'Ea.step_quiet_disabled', 'Ea.control_keep',
                        'Ea.C02.not_running_never_executed', 'Ea.C02.not_running_never_executed_history',
-                       'Ea.C02.disabled_executes_nothing', 'Ea.C02.control_leaves_other_jobs']))
+                       'Ea.C02.disabled_executes_nothing', 'Ea.C02.control_leaves_other_jobs',
+                       'Ea.step_mono', 'Ea.C02.mono_reachable', 'Ea.C02.one_execution_per_announcement',
+                       'Ea.C02.reported_run_time_is_new']))
 _reg(SchedProp('C07', ['Ea.C07.status_next_run', 'Ea.C07.finished_terminal', 'Ea.C07.callbacks_once',
                        'Ea.C07.set_next_run_callbacks', 'Ea.step_frozen', 'Ea.C07.not_running_record_frozen']))
 _reg(SchedProp('C08', ['Ea.C08.reset_announces', 'Ea.C08.reset_accepted', 'Ea.C08.countdown_fire_pauses',
